@@ -329,6 +329,11 @@ impl Hist for C01 {
             }
             if draws {
                 frame = frame_rows(&rb, w, stats);
+                // the property quantifies over heights in which the frame fits
+                if frame.len() > self.h {
+                    let _ = catch(move || drop(pb));
+                    return Verdict::Ok { hash: hash_of(&("frame does not fit", i)), nontrivial: false };
+                }
             }
         }
 
@@ -400,6 +405,10 @@ fn configs(tier: Tier) -> Vec<(C01, usize)> {
             }
             v.push((C01 { w: 8, h: 40, tpl0: 1, vt: false, reduced: true }, 4));
             v.push((C01 { w: 3, h: 40, tpl0: 0, vt: false, reduced: true }, 4));
+            // terminals exactly as high as the frame (histories in which a frame does not fit are skipped)
+            v.push((C01 { w: 20, h: 2, tpl0: 1, vt: false, reduced: false }, 3));
+            v.push((C01 { w: 8, h: 1, tpl0: 0, vt: false, reduced: false }, 3));
+            v.push((C01 { w: 3, h: 3, tpl0: 1, vt: true, reduced: true }, 4));
         }
         Tier::Thorough => {
             for &w in &[1usize, 2, 3, 8, 20] {
@@ -409,6 +418,9 @@ fn configs(tier: Tier) -> Vec<(C01, usize)> {
             }
             v.push((C01 { w: 8, h: 60, tpl0: 1, vt: false, reduced: false }, 5));
             v.push((C01 { w: 3, h: 60, tpl0: 0, vt: false, reduced: false }, 5));
+            for (w, h, tpl0) in [(20usize, 2usize, 1usize), (8, 1, 0), (3, 3, 1), (20, 1, 2), (8, 2, 3), (2, 4, 1)] {
+                v.push((C01 { w, h, tpl0, vt: w >= 2 && h >= 2, reduced: false }, 4));
+            }
         }
     }
     v
